@@ -586,6 +586,36 @@ class Sweep:
                 self.add_model("copy", eq, ua, ub, v, {}, float(r.d[0]), RT(1.0) * 64, f"reducible {eq} copy {ua}->{ub}")
                 self.add_model("inplace", eq, ua, ub, v, {}, got, RT(1.0) * 64, f"reducible {eq} in-place {ua}->{ub}")
 
+    def lorentz_endpoints(self):
+        """v = 0 <-> gamma = 1 (the end points of lorentz_inverse_endpoints), exactly"""
+        from unyt import unyt_array
+
+        chk = self.chk
+        if "lorentz" not in self.reg:
+            return
+        for (ua, v, ub, want, back) in [("km/s", 0.0, "dimensionless", 1.0, 0.0), ("dimensionless", 1.0, "m/s", 0.0, 1.0)]:
+            for mode in ("copy", "inplace"):
+                x = unyt_array(np.array([v]), ua)
+                try:
+                    if mode == "copy":
+                        r = x.to_equivalent(ub, "lorentz")
+                    else:
+                        x.convert_to_equivalent(ub, "lorentz")
+                        r = x
+                    b = r.copy().to_equivalent(ua, "lorentz")
+                    ok = float(r.d[0]) == want and float(b.d[0]) == back
+                    what = f"got {float(r.d[0])!r} and back {float(b.d[0])!r}"
+                except Exception as e:
+                    ok = False
+                    what = "raised " + core.exc_name(e)
+                chk.count("lorentz-endpoint")
+                chk.case(("lorentz-endpoint", ua, mode))
+                call = f"r = x.to_equivalent({ub!r}, 'lorentz')" if mode == "copy" else f"x.convert_to_equivalent({ub!r}, 'lorentz'); r = x"
+                if not ok:
+                    chk.fail(f"endpoint|lorentz|{'v=0' if v == 0.0 else 'gamma=1'}|{mode}", f"{v} {ua} -> {ub}: expected {want} and back {back}; {what}",
+                             {"python": snippet(f"x = unyt_array(np.array([{v!r}]), {ua!r})\n{call}\nb = r.copy().to_equivalent({ua!r}, 'lorentz')\nassert float(r.d[0]) == {want!r} and float(b.d[0]) == {back!r}, (r, b)\n"), "units": [ua, ub]})
+                self.add_model(mode, "lorentz", ua, ub, v, {}, want, 0.0, f"lorentz end point {v} {ua} {mode}")
+
     def offset_inputs(self):
         """a reading on an offset scale (degC, degF) is either refused or converted as the absolute
         temperature it denotes — never silently treated as if it were absolute"""
@@ -815,6 +845,7 @@ def run(tier, seed):
     sw.wrapper_routes()
     sw.offset_inputs()
     sw.reducible_inputs()
+    sw.lorentz_endpoints()
 
     # ---- correspondence: the model's numbers and outcomes ------------------------------------
     if model is not None and sw.mlines:
